@@ -118,6 +118,11 @@ public:
    /// applies m_colscale and m_rowscale to the \p lp.
    virtual void applyScaling(SPxLPBase<R>& lp);
 
+   /// to be called for a scaler that was copied from \p oldScaler, with \p newLP being the copy of \p oldLP: lets the
+   /// active scaling factors refer to the arrays of \p newLP if they referred to those of \p oldLP, and attaches
+   /// \p newLP to this scaler if \p oldLP was attached to \p oldScaler
+   void rebind(const SPxLPBase<R>& oldLP, const SPxScaler<R>& oldScaler, SPxLPBase<R>& newLP);
+
 
    template <class T>
    friend std::ostream& operator<<(std::ostream& s, const SPxScaler<T>& sc);
